@@ -70,4 +70,17 @@ theorem whileLoop_some {σ : Type} (cond : σ → Bool) (body : σ → σ) :
       cases h
       exact ⟨by simpa using hc, 0, Nat.zero_le _, rfl⟩
 
+/-- days since 1970-01-01 of a proleptic-Gregorian civil date (Hinnant's algorithm); differences of it
+are what `datetime.date.__sub__(...).days` returns. Agreement with `date.toordinal` is part of the tie. -/
+def daysFromCivil (y m d : Int) : Int :=
+  let y' := if m ≤ 2 then y - 1 else y
+  let era := (if y' ≥ 0 then y' else y' - 399) / 400
+  let yoe := y' - era * 400
+  let mp := (m + 9) % 12
+  let doy := (153 * mp + 2) / 5 + d - 1
+  let doe := yoe * 365 + yoe / 4 - yoe / 100 + doy
+  era * 146097 + doe - 719468
+
+def dateDays (a : Int × Int × Int) : Int := daysFromCivil a.1 a.2.1 a.2.2
+
 end Py
